@@ -14,7 +14,7 @@ try:
         print('patch does not apply', a.stderr); sys.exit(2)
     t0 = time.time()
     env = dict(os.environ, VERIF_EVIDENCE_DIR=os.path.join(tmp, 'evidence-out'))
-    p = subprocess.run(['/verif/check', prop, '--tier', tier, '--repo', tmp], capture_output=True, text=True, cwd='/verif', env=env)
+    p = subprocess.run([os.path.join(os.path.dirname(os.path.dirname(os.path.abspath(__file__))), 'check'), prop, '--tier', tier, '--repo', tmp], capture_output=True, text=True, cwd=os.path.dirname(os.path.dirname(os.path.abspath(__file__))), env=env)
     out = p.stdout + p.stderr
     viol = re.findall(r'VIOLATION property=\S+ replay=(\S+)(.*)', out)
     obligations = []
